@@ -7,6 +7,8 @@ mod lsp;
 mod lspdiff;
 mod model;
 mod props;
+mod pygen;
+mod pyoracle;
 mod render;
 mod runner;
 mod snapshot;
